@@ -697,6 +697,9 @@ func runFrame(fr *frame) {
 		}
 		fr.panicking = true
 		fr.panic = p
+		if fr.g != nil && fr.g.panicOrigin == "" {
+			fr.g.panicOrigin = fr.fn.String()
+		}
 		if fr.i.w.Trace {
 			fmt.Fprintf(os.Stderr, "Panicking in %s: %T %v.\n", fr.fn, fr.panic, fr.panic)
 		}
@@ -767,6 +770,9 @@ func doRecover(caller *frame) value {
 		caller.caller.panicking = false
 		p := caller.caller.panic
 		caller.caller.panic = nil
+		if caller.g != nil {
+			caller.g.panicOrigin = ""
+		}
 		switch p := p.(type) {
 		case targetPanic:
 			return p.v
